@@ -1,25 +1,25 @@
 #!/bin/bash
-# recheck_seeds.sh: re-run every implemented check against each kept seeded change (no test suite),
-# and rewrite "checks_that_fire" in its meta.json. Scratch worktree under /var/tmp, removed afterwards.
+# recheck_seeds.sh: re-run, against each kept seeded change applied to /repo's HEAD in a scratch
+# worktree, the check of its own property and every check recorded as catching it; rewrite
+# "checks_that_fire" in meta.json. (The full sweep over all checks is done once, by confirm_seed.sh.)
 export GOFLAGS=-mod=mod GOPROXY=off GOSUMDB=off GOTOOLCHAIN=local GOWORK=off
+wt=/var/tmp/rs-wt
+git -C /repo worktree remove --force $wt 2>/dev/null
+git -C /repo worktree add -q --force --detach $wt HEAD || exit 2
+mkdir -p /var/tmp/rs-vd; cp /verif/known_findings.txt /var/tmp/rs-vd/
 for d in /verif/seeded/*/; do
-  name=$(basename $d); wt=/var/tmp/rs-$name
-  git -C /repo worktree add -q --force $wt HEAD || continue
-  if (cd $wt && git apply $d/patch.diff); then
-    mkdir -p /var/tmp/vd-$name; cp /verif/known_findings.txt /var/tmp/vd-$name/
-    fired=""
-    rm -f $d/check_*.log
-    for p in $(/verif/bin/pvcheck -list); do
-      if ! PILOSA_REPO=$wt VERIF_DIR=/var/tmp/vd-$name /verif/bin/pvcheck -prop $p > $d/check_$p.log 2>&1; then fired="$fired $p"; else rm -f $d/check_$p.log; fi
-    done
-    rm -rf /var/tmp/vd-$name
-    python3 - <<PY
+  name=$(basename $d)
+  (cd $wt && git checkout -q -- . && git clean -fdq)
+  if ! (cd $wt && git apply $d/patch.diff 2>/dev/null); then echo "$name: patch no longer applies to HEAD"; continue; fi
+  props=$(jq -r '([.property] + .checks_that_fire) | unique | .[]' $d/meta.json)
+  fired=""
+  for p in $props; do
+    if ! PILOSA_REPO=$wt VERIF_DIR=/var/tmp/rs-vd /verif/bin/pvcheck -prop $p > /var/tmp/rs-check.log 2>&1; then fired="$fired $p"; cp /var/tmp/rs-check.log $d/check_$p.log; else rm -f $d/check_$p.log; fi
+  done
+  python3 - <<PY
 import json
 m=json.load(open("$d/meta.json")); m["checks_that_fire"]="$fired".split(); m["rechecked_at_commit"]="$(git -C /repo rev-parse --short HEAD)"
 json.dump(m,open("$d/meta.json","w"),indent=1); print(m["name"],m["checks_that_fire"])
 PY
-  else
-    echo "$name: patch no longer applies to HEAD"
-  fi
-  git -C /repo worktree remove --force $wt
 done
+git -C /repo worktree remove --force $wt; rm -rf /var/tmp/rs-vd /var/tmp/rs-check.log
